@@ -311,8 +311,11 @@ def tiling_identities(ctx):
     npn = _np_names(f)
     ps = q.names_defined_by(f, lambda v: norm(v).endswith('multipart_chunksize')) or ['self._config.multipart_chunksize']
     npd = [v for nm in npn[:1] for st, v in q.local_defs(f, nm) if isinstance(v, ast.AST)]
-    ctx.ob(f, 'num_parts = ceil(file size / float(part_size))', len(npd) == 1 and bool(ps) and _num_parts_expr_ok(npd[0], 'self._os.get_file_size(filename)', ps[0]), f'{[norm(v) for v in npd]}')
-    part = [c for c in own_calls(f.node) if (dotted(c.func) or '').endswith('partial') and c.args and norm(c.args[0]) == 'self._upload_one_part']
+    ps_i = norm(q.inline_locals(f, ast.parse(ps[0], mode='eval').body)) if ps else None
+    ctx.ob(f, 'num_parts = ceil(file size / float(part_size))', len(npd) == 1 and bool(ps)
+           and (_num_parts_expr_ok(npd[0], 'self._os.get_file_size(filename)', ps[0]) or _num_parts_expr_ok(q.inline_locals(f, npd[0]), 'self._os.get_file_size(filename)', ps_i)),
+           f'{[norm(v) for v in npd]}')
+    part = [c for c in own_calls(f.node) if ((dotted(c.func) or '').endswith('partial') or (dotted(c.func) or '') == 'FunctionContainer') and c.args and norm(c.args[0]) == 'self._upload_one_part']
     ctx.ob(f, 'the same part size is bound into _upload_one_part', len(part) == 1 and bool(ps) and len(part[0].args) > 5 and norm(part[0].args[5]) == ps[0], 'part size of the bodies and of the count differ')
     # copies
     f = ctx.func('copies.CopySubmissionTask._submit_multipart_request')
